@@ -106,6 +106,17 @@ Theorem C05_who_touches_messages : map fst CoreShape.core_touches = HandoffSrc.e
 Proof. exact HandoffSrc.src_who_touches_messages. Qed.
 Print Assumptions C05_who_touches_messages.
 
+(* Progress: whatever the publishers, movers (ANY kinds, ANY number) and the closer have done
+   so far, there is a way for all of them to run to their end - the exit locks the repairs
+   F16, F18, F20, F21 added cannot deadlock with each other (programs of the CURRENT source) *)
+From NSQV Require proofs.HandoffProgress.
+Theorem C05_close_empty_delete_cannot_deadlock : forall ks sched prog,
+  In prog [HandoffCompose.src_topic_close; HandoffCompose.src_topic_delete; HandoffCompose.src_channel_close;
+           HandoffCompose.src_channel_delete; HandoffCompose.src_channel_empty] ->
+  exists more, HandoffProgress.finished (Handoff.run (Handoff.init ks prog) (sched ++ more)) = true.
+Proof. exact HandoffCompose.source_closers_cannot_deadlock. Qed.
+Print Assumptions C05_close_empty_delete_cannot_deadlock.
+
 (* known finding K3, as a theorem: the consumer pump's hand-off (receive from the queue, then
    StartInFlightTimeout) is outside the protocol in the current source, and a mover outside the
    protocol loses its message under this schedule *)
